@@ -440,3 +440,98 @@ func VerifH14() {
 		vReach("trailer")
 	}
 }
+
+// ---------------------------------------------------------------------------
+// H13d — how a binary COPY ends is decided by the client's protocol message,
+// not by the data (C13/C14): a handler reads rows through the library's
+// binary row reader; the client sends the header, TUPLES one-column tuples and
+// — or not — the end-of-data trailer, in one CopyData, then ends the COPY
+// with CopyDone, CopyFail (symbolic, possibly empty, description) or a
+// non-COPY message. CopyFail / non-COPY message: the handler sees a non-nil,
+// non-EOF error and the cycle is exactly one ErrorResponse and one
+// ReadyForQuery; CopyDone after the trailer: end-of-stream and CommandComplete.
+// ---------------------------------------------------------------------------
+func VerifH13d() {
+	tuples := vChoose(vParam("TUPLES", 2) + 1)
+	trailer := nondetBool()
+	end := vChoose(3) // 0 CopyDone, 1 CopyFail, 2 a non-COPY message (Query)
+	stream := append([]byte{}, vCopyHeader...)
+	vals := make([][]byte, tuples)
+	for t := 0; t < tuples; t++ {
+		vals[t] = nondetBytes(vChoose(2))
+		stream = vCat(stream, vU16(1), vU32(uint32(len(vals[t]))), vals[t])
+	}
+	if trailer {
+		stream = append(stream, 0xFF, 0xFF)
+	}
+	input := vCat(vMsgBytes('Q', vCStr([]byte("copy"))), vMsgBytes('d', stream))
+	switch end {
+	case 0:
+		input = vCat(input, vMsgBytes('c', nil))
+	case 1:
+		desc := nondetBytes(vChoose(3))
+		vAssume(vNoNUL(desc))
+		input = vCat(input, vMsgBytes('f', vCStr(desc)))
+	default:
+		input = vCat(input, vMsgBytes('Q', vCStr([]byte("x"))))
+	}
+	var rows [][]any
+	var endErr error
+	stmt := func(ctx context.Context, dw DataWriter, params []Parameter) error {
+		cr, err := dw.CopyIn(BinaryFormat)
+		if err != nil {
+			return err
+		}
+		br, err := NewBinaryColumnReader(ctx, cr)
+		if err != nil {
+			return err
+		}
+		for k := 0; k < 4; k++ {
+			row, err := br.Read(ctx)
+			if err != nil {
+				endErr = err
+				break
+			}
+			rows = append(rows, row)
+		}
+		if endErr == io.EOF {
+			return dw.Complete("COPY")
+		}
+		return endErr
+	}
+	parse := func(ctx context.Context, query string) (PreparedStatements, error) {
+		return Prepared(NewStatement(stmt, WithColumns(vTextColumns(1)))), nil
+	}
+	srv, err := NewServer(parse, MessageBufferSize(128))
+	vAssert("newserver-ok", err == nil)
+	w := &vWorld{srv: srv}
+	w.conn = vNewConn(input)
+	w.ses, w.rd, w.wr = vSession(srv, w.conn)
+	w.ctx = vCtx(srv)
+	out, stepErr := w.step()
+	vAssert("connection-stays-up", stepErr == nil)
+	vAssert("wire-wellformed", vWireOK(w.conn.out))
+	vAssert("reader-ended", endErr != nil)
+	vAssert("rows-read-before-the-end", len(rows) == tuples)
+	for t := 0; t < tuples && t < len(rows); t++ {
+		s, isStr := rows[t][0].(string)
+		vAssert("row-value", isStr && vEqStr(s, string(vals[t])))
+	}
+	switch {
+	case end == 0 && trailer:
+		vAssert("copydone-after-trailer-is-end-of-stream", endErr == io.EOF)
+		vAssert("success-cycle", out == "TGCZ")
+		vReach("completed")
+	case end == 0 && !trailer:
+		// a stream that ends without the trailer is outside the format (H14)
+	case end == 1:
+		vAssert("copyfail-is-a-non-EOF-error", endErr != io.EOF)
+		vAssert("abort-exactly-one-E-one-Z", out == "TGEZ")
+		if trailer {
+			vReach("copyfail-after-trailer")
+		}
+	default:
+		vAssert("non-copy-message-is-a-non-EOF-error", endErr != io.EOF)
+		vAssert("abort-exactly-one-E-one-Z", out == "TGEZ")
+	}
+}
